@@ -89,7 +89,14 @@ def draw_scenario(ch):
         for _ in range(k):
             names.append(ch.pick([x for x in pool if x not in names], "param"))
     dists = [draw_distribution(ch, n) for n in names]
-    sc = {"knobs": knobs, "target": target, "dists": dists, "energy": ch.pick([100e3, 200e3], "energy")}
+    # parameters that are NOT distributed may still carry a non-default scalar (e.g. tilt=(distribution, 3.0))
+    scalars = {}
+    pool_s = {"planewave": ["tilt_x", "tilt_y"], "apply_ctf": ["defocus", "C30", "semiangle_cutoff"]}.get(
+        target, ["tilt_x", "tilt_y", "defocus", "C30"])
+    for name in pool_s:
+        if name not in names and ch.bool(0.4, "scalar-" + name):
+            scalars[name] = ch.pick(MENU[name]["values"], "scalar-value")
+    sc = {"knobs": knobs, "target": target, "dists": dists, "scalars": scalars, "energy": ch.pick([100e3, 200e3], "energy")}
     if target in ("probe-multislice", "planewave"):
         sc["potential"] = scene.draw_potential(ch, kinds=("atoms",), finite_p=0.0, exit_p=0.0)
         sc["potential"]["gpts"] = [ch.pick([16, 20], "gx"), ch.pick([16, 18], "gy")]
@@ -110,6 +117,7 @@ def run_pipeline(sc, values, lazy, max_batch="auto"):
     import abtem
 
     target = sc["target"]
+    values = {**sc.get("scalars", {}), **values}
     tilt = (values.get("tilt_x", 0.0), values.get("tilt_y", 0.0))
     ab = {k: values[k] for k in ("C30", "C12") if k in values}
     if "C12" in ab:
